@@ -632,6 +632,11 @@ def path_dnf(tb, target, max_paths=256, include_asserts=False):
                 c2 = set(conj)
                 bad = False
                 for (c, v) in ec:
+                    if c[0] == "const":
+                        # branch on a compile-time constant (cfg!(..)): the other edge is dead
+                        if bool(c[1]) != v:
+                            bad = True
+                        continue
                     if (c, not v) in c2:
                         bad = True
                     c2.add((c, v))
